@@ -85,6 +85,13 @@ pub fn check_outcome(out: &Outcome, input: &[u8], o: &Opts) -> Vec<Finding> {
                 _ => "outcome-mismatch",
             };
             v.push(f("C05", key, format!("build returned {} but the capacity rule gives {:?}", got.tag(), exp)));
+            // automatic mode: an input that fits only in its most compact mode was refused as too big: some wider
+            // mode was assumed for it
+            if let (Outcome::ErrData, Expect::Ok { m, e, .. }) = (got, exp) {
+                if o.mode.is_none() && o.version.is_none() && m < 2 && r::min_version(2, e, input.len()).is_none() {
+                    v.push(f("C09", "refused-although-compact-mode-fits", format!("automatic mode: {} characters that fit version 40 in mode {} (the most compact mode able to represent them) were refused as too big; they do not fit in Byte mode", input.len(), m)));
+                }
+            }
         }
     }
     v
